@@ -130,6 +130,299 @@ func fnMergeShifted() *run.Fn {
 	}}
 }
 
+// ---- MergeHistory: a sequence of calls in ONE invocation, with a caller that reuses and scribbles over its own data ----
+// step = [kind; ids; a; b; flags]; kind "ext" (ids, H, V), "sid" (ids, z), "higher" ([id], hDiff, vDiff).
+// The argument slice of every step is the same caller buffer (same backing array, new contents). flags: 1 = after the call overwrite
+// the argument slice, 2 = after the call overwrite and truncate/extend the returned slice, 4 = the caller parses the step's IDs into
+// its own *ExtendedSpatialID objects before the call and mutates them (SetX, SetZ, SetZoom) after it. Results are copied out
+// before any scribbling. Every step is judged like a standalone call (the model is pure).
+const scribble = "9/1/1/9/1"
+
+func historyScript(a []w.Val) w.Val {
+	steps := w.AsList(a[0])
+	for _, st := range steps { // refuse the whole case if any step is beyond the work bound
+		f := w.AsList(st)
+		ids, x := w.AsStrs(f[1]), w.AsInt(f[2])
+		switch w.AsStr(f[0]) {
+		case "ext":
+			if !withinBound(ids, x, w.AsInt(f[3])) {
+				return w.S(skipped)
+			}
+		case "sid":
+			if e, err := shape.ConvertSpatialIdsToExtendedSpatialIds(ids); err == nil && !withinBound(e, x, x) {
+				return w.S(skipped)
+			}
+		}
+	}
+	buf := make([]string, 0, 512) // the caller's one argument buffer
+	out := make(w.List, 0, len(steps))
+	for _, st := range steps {
+		f := w.AsList(st)
+		kind, ids, x, y, flags := w.AsStr(f[0]), w.AsStrs(f[1]), w.AsInt(f[2]), w.AsInt(f[3]), w.AsInt(f[4])
+		if len(ids) > cap(buf) {
+			return w.S("bad-script")
+		}
+		arg := buf[:len(ids)]
+		copy(arg, ids)
+		var own []*object.ExtendedSpatialID
+		if flags&4 != 0 {
+			for _, s := range ids {
+				if e, err := object.NewExtendedSpatialID(s); err == nil {
+					own = append(own, e)
+				}
+			}
+		}
+		var res []string
+		var err error
+		switch kind {
+		case "ext":
+			res, err = integrate.MergeExtendedSpatialIds(arg, x, y)
+			out = append(out, w.WithErr(w.Strs(append([]string{}, res...)), err))
+		case "sid":
+			res, err = integrate.MergeSpatialIds(arg, x)
+			out = append(out, w.WithErr(w.Strs(append([]string{}, res...)), err))
+		case "higher":
+			if len(arg) != 1 {
+				return w.S("bad-script")
+			}
+			e, perr := object.NewExtendedSpatialID(arg[0])
+			if perr != nil {
+				out = append(out, w.WithErr(w.S(""), perr))
+			} else {
+				hi := e.Higher(x, y)
+				out = append(out, w.S(hi.ID()))
+				if flags&2 != 0 { // the caller mutates the objects it holds
+					hi.SetX(hi.X() + 7)
+					hi.SetZ(hi.Z() - 5)
+					e.SetZoom(e.HZoom()+1, e.VZoom()+2)
+					e.SetY(e.Y() + 1)
+				}
+			}
+		default:
+			return w.S("bad-script")
+		}
+		if flags&1 != 0 {
+			for i := range arg {
+				arg[i] = scribble
+			}
+		}
+		if flags&2 != 0 && res != nil {
+			for i := range res {
+				res[i] = scribble
+			}
+			res = append(res[:0], scribble, scribble)
+			_ = res
+		}
+		for i, e := range own {
+			e.SetX(e.X() + int64(i) + 1)
+			e.SetZ(e.Z() - 3)
+			e.SetZoom(e.HZoom()+1, e.VZoom()+1)
+		}
+	}
+	return out
+}
+
+func fnHistory() *run.Fn { return &run.Fn{Name: "MergeHistory", Invoke: historyScript} }
+
+type hstep struct {
+	kind  string
+	ids   []string
+	a, b  int64
+	flags int64
+}
+
+func runHistory(r *run.Runner, steps []hstep, tags []string) {
+	sv := make(w.List, len(steps))
+	for i, st := range steps {
+		sv[i] = w.L(w.S(st.kind), w.Strs(st.ids), w.I(st.a), w.I(st.b), w.I(st.flags))
+	}
+	r.Run(run.Case{Prop: "C04", Fn: "MergeHistory", Tags: append([]string{"history", Tag("steps=%d", len(steps))}, tags...), Args: []w.Val{sv}})
+}
+
+// priming call: fixed and unrelated, so that every history (also a shrunk one replayed in a fresh process) starts from a used library
+var primeStep = hstep{"ext", []string{"5/1/1/5/1", "5/1/1/5/0"}, 5, 4, 0}
+
+func otherZoom(g *Gen, z int64) int64 {
+	n := z + g.Pick(-1, 1, 1, -1, 2)
+	if n < 0 || n > 35 {
+		n = z - g.Pick(1, 1, 2)
+		if n < 0 {
+			n = z + 1
+		}
+	}
+	return n
+}
+
+// genHistory: related consecutive calls — same key-like arguments (target zooms) with other lists, the same list with other zooms,
+// lists sharing their first members / their length, invalid-then-valid and valid-then-invalid pairs on the same list or the same
+// zooms, identical repeats with the caller scribbling in between, spatial-ID and Higher calls interleaved.
+func genHistory(r *run.Runner, g *Gen) {
+	c := genCase(g, g.Chance(0.2))
+	for len(c.ids) > 24 {
+		c = genCase(g, false)
+	}
+	same := c.es != nil && len(c.es) > 0 && c.es[0].h == c.es[0].v && c.H == c.V && allSame(c.es)
+	fl := func() int64 {
+		if g.Chance(0.5) {
+			return g.Pick(1, 2, 3, 4, 6, 7, 5)
+		}
+		return 0
+	}
+	ext := func(ids []string, H, V int64) hstep { return hstep{"ext", append([]string{}, ids...), H, V, fl()} }
+	steps := []hstep{primeStep}
+	tags := []string{}
+	base := ext(c.ids, c.H, c.V)
+	pat := g.Intn(9)
+	switch pat {
+	case 0: // same list, other target zooms (only H, only V, both), then the first again
+		tags = append(tags, "same-list-other-zoom")
+		steps = append(steps, base)
+		for n := 1 + g.Intn(3); n > 0; n-- {
+			H, V := c.H, c.V
+			switch g.Intn(3) {
+			case 0:
+				H = otherZoom(g, H)
+			case 1:
+				V = otherZoom(g, V)
+			default:
+				H, V = otherZoom(g, H), otherZoom(g, V)
+			}
+			steps = append(steps, ext(c.ids, H, V))
+		}
+		steps = append(steps, base)
+	case 1: // same zooms, other lists: sharing the first member, the length, a permutation, one member changed
+		tags = append(tags, "same-zoom-other-list")
+		steps = append(steps, base)
+		for n := 1 + g.Intn(3); n > 0; n-- {
+			d := genCaseAt(g, false, c.H, c.V)
+			ids := append([]string{}, d.ids...)
+			switch g.Intn(4) {
+			case 0:
+				ids[0] = c.ids[0]
+			case 1:
+				ids = append([]string{}, c.ids...)
+				ids[g.Intn(len(ids))] = d.ids[0]
+			case 2:
+				ids = append([]string{}, c.ids...)
+				g.R.Shuffle(len(ids), func(i, j int) { ids[i], ids[j] = ids[j], ids[i] })
+			}
+			if len(ids) > 24 {
+				ids = ids[:24]
+			}
+			steps = append(steps, ext(ids, c.H, c.V))
+		}
+		steps = append(steps, base)
+	case 2: // invalid then valid on the same list: bad target zoom first, then the good one; and the reverse
+		tags = append(tags, "invalid-then-valid-zoom")
+		bad := ext(c.ids, c.H, c.V)
+		if g.Chance(0.5) {
+			bad.a = g.Pick(-1, 36, 99)
+		} else {
+			bad.b = g.Pick(-1, 36, -7)
+		}
+		if g.Chance(0.6) {
+			d := genCaseAt(g, false, c.H, c.V)
+			steps = append(steps, ext(d.ids, c.H, c.V)) // a valid call that leaves a result behind
+		}
+		steps = append(steps, bad, base, bad, base)
+	case 3: // malformed member then the repaired list at the same zooms; and the reverse
+		tags = append(tags, "invalid-then-valid-id")
+		bad := ext(c.ids, c.H, c.V)
+		if g.Chance(0.5) { // malformed member last: everything before it has been processed when the call fails
+			bad.ids = append(bad.ids, g.Malformed())
+		} else {
+			bad.ids[g.Intn(len(bad.ids))] = g.Malformed()
+		}
+		if g.Chance(0.5) {
+			steps = append(steps, bad, base, bad)
+		} else {
+			steps = append(steps, base, bad, base)
+		}
+	case 4: // identical calls with the caller scribbling over argument / result / own objects in between
+		tags = append(tags, "repeat-with-scribble")
+		b1 := base
+		b1.flags = g.Pick(1, 2, 3, 4, 7, 6)
+		b2 := base
+		b2.flags = g.Pick(2, 3, 7, 0)
+		steps = append(steps, b1, b2, base)
+	case 5: // Higher on IDs sharing x, y and the differences but not the vertical index / vertical zoom, and repeats after mutation
+		tags = append(tags, "higher-related")
+		h, v := g.Int63n(30)+3, g.Int63n(30)+3
+		x, y := g.HIndex(h), g.HIndex(h)
+		hd, vd := g.Int63n(3), g.Int63n(3)
+		for n := 2 + g.Intn(3); n > 0; n-- {
+			vv := v
+			if g.Chance(0.3) {
+				vv = otherZoom(g, v)
+			}
+			steps = append(steps, hstep{"higher", []string{EID(h, x, y, vv, g.VIndex(vv))}, hd, vd, fl()})
+		}
+		rep := steps[1]
+		rep.flags = 2 // the caller mutates the returned object and its own parsed object, then asks again
+		steps = append(steps, rep, rep, base)
+	case 6: // spatial-ID and extended calls interleaved at the same zoom
+		tags = append(tags, "sid-ext-interleaved")
+		d := genCase(g, true)
+		for len(d.ids) > 24 {
+			d = genCase(g, true)
+		}
+		sid := hstep{"sid", toSids(d.ids), d.H, 0, fl()}
+		steps = append(steps, sid, ext(d.ids, d.H, d.H), hstep{"sid", toSids(d.ids), otherZoom(g, d.H), 0, fl()}, sid, base)
+	case 7: // a complete set, then proper subsets and supersets of it at the same zooms, then the set again
+		tags = append(tags, "subsets-supersets")
+		steps = append(steps, base)
+		for n := 1 + g.Intn(3); n > 0; n-- {
+			var ids []string
+			for _, s := range c.ids {
+				if g.Chance(0.6) {
+					ids = append(ids, s)
+				}
+			}
+			if len(ids) == 0 {
+				ids = c.ids[:1]
+			}
+			steps = append(steps, ext(ids, c.H, c.V))
+		}
+		steps = append(steps, base)
+	default: // everything mixed
+		tags = append(tags, "mixed")
+		steps = append(steps, base)
+		d := genCaseAt(g, false, c.H, otherZoom(g, c.V))
+		if len(d.ids) <= 24 {
+			steps = append(steps, ext(d.ids, d.H, d.V))
+		}
+		bad := ext(c.ids, 36, c.V)
+		steps = append(steps, bad, base, hstep{"higher", []string{c.ids[0]}, 0, 0, fl()}, base)
+	}
+	_ = same
+	if len(steps) > 12 {
+		steps = steps[:12]
+	}
+	// never emit a history the size guard refuses: drop the steps another target zoom pushed beyond the work bound
+	kept := steps[:0]
+	for _, st := range steps {
+		if st.kind == "ext" && !withinBound(st.ids, st.a, st.b) {
+			continue
+		}
+		if st.kind == "sid" {
+			if e, err := shape.ConvertSpatialIdsToExtendedSpatialIds(st.ids); err == nil && !withinBound(e, st.a, st.a) {
+				continue
+			}
+		}
+		kept = append(kept, st)
+	}
+	runHistory(r, kept, tags)
+}
+
+func allSame(es []eid) bool {
+	for _, e := range es {
+		if e.h != e.v {
+			return false
+		}
+	}
+	return true
+}
+
 func fnHigher() *run.Fn {
 	return &run.Fn{Name: "Higher", Invoke: func(a []w.Val) w.Val {
 		e, err := object.NewExtendedSpatialID(w.AsStr(a[0]))
@@ -1129,7 +1422,7 @@ func fixedSequences(r *run.Runner) {
 func init() {
 	Scale["C04"] = 10000
 	Registry["C04"] = func(r *run.Runner, g *Gen, n int) {
-		r.Register(fnMergeExt(), fnMergeSid(), fnHigher(), fnMergeTwice(), fnMergeShifted(), fnHelpers("HighSpatialIDOps"), fnHelpers("MergeHelperSequence"))
+		r.Register(fnMergeExt(), fnMergeSid(), fnHigher(), fnMergeTwice(), fnMergeShifted(), fnHistory(), fnHelpers("HighSpatialIDOps"), fnHelpers("MergeHelperSequence"))
 		if n == 0 {
 			return
 		}
@@ -1201,6 +1494,8 @@ func init() {
 				runExt(r, c, true)
 			case i%6 == 2: // far targets, empty list, spellings, adjacent targets, long lists, metamorphic pairs
 				special(r, g)
+			case i%12 == 10: // histories: related consecutive calls in one invocation, with a caller that scribbles over its data
+				genHistory(r, g)
 			case i%24 == 9: // the exported merge helpers as stand-alone API
 				genHelpers(r, g)
 			case i%10 == 7: // ExtendedSpatialID.Higher alone
